@@ -542,6 +542,26 @@ def run_case(case):
                     if int(o.l[0].x) != int(f2.x) or not (int(f2.x) < 3):
                         bad("list_constraint_violated", "after clear()+append(obj)+randomize the element read through the list (x=%d) is not the "
                             "object the solver worked on (x=%d)" % (int(o.l[0].x), int(f2.x)), int(o.l[0].x), int(f2.x), [], ["clear", "append", "randomize"])
+        # item assignment: l[k] = obj replaces the element the list exposes, for the solver too
+        outs, o = run(Script([]))
+        if outs[-1][0][0] == "ok" and len(o.l):
+            E = type(o.l[0])
+            cnt["edit_histories"] += 1
+            k = len(o.l) - 1
+            repl = E()
+            repl.x = 3              # outside the element class's own block (x < 3) and most list statements
+            o.l[k] = repl
+            if o.l[k] is not repl or [e for e in o.l][k] is not repl or len(o.l) != k + 1:
+                bad("edit_not_on_exposed_list", "l[%d] = obj on an object list: the list does not expose the assigned object" % k,
+                    "other object", "assigned object", [], ["setitem"])
+            out = common.outcome(o.randomize)
+            cnt["executions"] += 1
+            if out[0] == "ok":
+                v = view(o, kind)
+                if int(o.l[k].x) != int(repl.x) or not prog["pred"](v):
+                    bad("list_constraint_violated", "after l[%d] = obj and another call the list reads x=%r (assigned object x=%d): the "
+                        "statements do not hold over the exposed elements" % (k, v["l"], int(repl.x)), v, "constraint holds", [],
+                        ["setitem", "randomize"])
     return {"cnt": cnt, "viol": viol}
 
 
